@@ -54,7 +54,7 @@ def wma_factor(G, gender, event, age):
         else:
             return None
     ages = G['wma']['ages']
-    band = min(5 * (age // 5), ages[-1])
+    band = int(min(5 * (age // 5), ages[-1]))
     col = ages.index(band)
     for row in G['wma'][gender.lower()]:
         if row[0] == ev:
@@ -241,6 +241,8 @@ def run(tier):
         knd = kind_of(G, row['ev'])
         mid = int(row['Z'] * 100 * Decimal('0.6')) if knd == 'timed' else (int(row['Z']) + 150 if knd == 'jump' else int(row['Z'] * 100) + 1500)
         chunks.append((k, mid, mid + (200 if tier == 'quick' else 1000), list(range(1, 115)), False, 1))
+        # ages that are not whole numbers (worked out from dates): the band is that of the completed years
+        chunks.append((k, mid, mid + (40 if tier == 'quick' else 400), [34.5, 34.6, 34.99, 35.0, 35.01, 39.5, 39.7, 40.0, 44.5, 44.9, 49.5, 52.25, 59.51, 64.999, 99.99, 104.5], False, 1))
     t2 = merge(rep, pmap(work, chunks), part='every age 1..114 on a window of each row')
     # (2b) letter-case spellings of gender and event (the scoring key is case-insensitive) on a window of each table row
     chunks = []
